@@ -17,6 +17,7 @@ type P struct {
 
 // fn resolves an anchor function; a missing anchor is an undecided obligation (fails the check).
 func (p *P) fn(rule, name string) *ssa.Function {
+	mention(name)
 	f := p.c.Fn(name)
 	if f == nil {
 		p.r.Undecided(rule, "anchor "+name, "anchor function "+name+" not found in /repo — the rule cannot be decided (renamed or removed?)")
@@ -79,11 +80,9 @@ func (v VM) all(fn *ssa.Function) map[ssa.Value]AV {
 }
 
 func allValues(fn *ssa.Function, f func(v ssa.Value)) {
-	for _, b := range fn.Blocks {
-		for _, in := range b.Instrs {
-			if v, ok := in.(ssa.Value); ok {
-				f(v)
-			}
+	for _, in := range instrsOf(fn) {
+		if v, ok := in.(ssa.Value); ok {
+			f(v)
 		}
 	}
 }
@@ -94,6 +93,7 @@ func re(s string) *regexp.Regexp { return regexp.MustCompile(s) }
 // regexp on the canonical form of the whole call) and binds result #idx
 // (idx<0: the call value itself, for single-result functions) to av.
 func callResult(name, callee string, callRe string, idx int, av AV) VM {
+	mention(callee)
 	var rx *regexp.Regexp
 	if callRe != "" {
 		rx = re(callRe)
@@ -127,6 +127,7 @@ func callResult(name, callee string, callRe string, idx int, av AV) VM {
 
 // errFails: the error result of callee is non-nil. The error is the last result.
 func errFails(name, callee, callRe string) VM {
+	mention(callee)
 	var rx *regexp.Regexp
 	if callRe != "" {
 		rx = re(callRe)
@@ -268,6 +269,7 @@ type Sink struct {
 }
 
 func callSinks(fn *ssa.Function, label string, callees ...string) []Sink {
+	mention(callees...)
 	var out []Sink
 	for _, cs := range callsTo(fn, false, callees...) {
 		out = append(out, Sink{cs.Instr, label + " " + cs.Callee()})
@@ -425,9 +427,9 @@ func (p *P) guarded(rule string, fn *ssa.Function, sinks []Sink, guards ...VM) {
 			construct := fmt.Sprintf("%s: %s requires %s", fname, sk.Label, g.Name)
 			if s.Reachable(sk.Instr) {
 				var w []string
-				for _, b := range s.Path(sk.Instr.Block()) {
-					if len(b.Instrs) > 0 {
-						w = append(w, fmt.Sprintf("b%d@%s", b.Index, p.c.InstrPos(b.Instrs[0])))
+				for _, n := range s.PathTo(sk.Instr) {
+					if len(n.Instrs) > 0 {
+						w = append(w, fmt.Sprintf("n%d@%s", n.Idx, p.c.InstrPos(n.Instrs[0])))
 					}
 				}
 				var gpos []string
@@ -494,9 +496,10 @@ func (p *P) guardedAfter(rule string, fn *ssa.Function, sinks []Sink, guards ...
 // callersOf lists every call site (in production functions, or all when tests
 // are loaded) that may invoke the named function (static callee) or interface method ("iface:T.M").
 func (p *P) callersOf(names ...string) []CallSite {
+	mention(names...)
 	var out []CallSite
 	for _, f := range p.c.Funcs {
-		if f.Synthetic != "" {
+		if f.Synthetic != "" || helperSite[f] != nil {
 			continue
 		}
 		for _, cs := range callSites(f, false) {
@@ -508,8 +511,8 @@ func (p *P) callersOf(names ...string) []CallSite {
 			}
 		}
 		// function values (method values / bound methods) count as potential calls
-		for _, b := range f.Blocks {
-			for _, in := range b.Instrs {
+		for _, in := range instrsOf(f) {
+			{
 				for _, op := range in.Operands(nil) {
 					if op == nil || *op == nil {
 						continue
@@ -533,6 +536,8 @@ func (p *P) callersOf(names ...string) []CallSite {
 
 // onlyCalledFrom: every production call site of callee lies in one of the allowed functions.
 func (p *P) onlyCalledFrom(rule, callee string, allowed ...string) []CallSite {
+	mention(callee)
+	mention(allowed...)
 	if p.c.Fn(callee) == nil && !strings.HasPrefix(callee, "iface:") {
 		p.r.Undecided(rule, "anchor "+callee, "anchor function "+callee+" not found")
 		return nil
@@ -548,7 +553,7 @@ func (p *P) onlyCalledFrom(rule, callee string, allowed ...string) []CallSite {
 		if p.c.IsTestFile(cs.Fn.Pos()) {
 			continue
 		}
-		caller := funcName(cs.Fn)
+		caller := funcName(rootOf(cs.Fn)) // a private helper is part of the function it is spliced into
 		where := p.c.Pos(cs.Fn.Pos())
 		if cs.Instr != nil {
 			where = p.c.InstrPos(cs.Instr)
@@ -558,6 +563,9 @@ func (p *P) onlyCalledFrom(rule, callee string, allowed ...string) []CallSite {
 			if strings.HasPrefix(caller, a+"$") {
 				allowedCaller = true // a closure nested in an allowed function
 			}
+		}
+		if !allowedCaller && p.onlyReachedFrom(rootOf(cs.Fn), okSet, 0) {
+			allowedCaller = true // an unexported helper all of whose callers are allowed
 		}
 		if allowedCaller {
 			found++
@@ -573,8 +581,53 @@ func (p *P) onlyCalledFrom(rule, callee string, allowed ...string) []CallSite {
 	return keep
 }
 
+// onlyReachedFrom: h is an unexported in-repo function, never used as a value, and every one of its
+// production call sites lies (transitively) in a function of okSet.
+func (p *P) onlyReachedFrom(h *ssa.Function, okSet map[string]bool, depth int) bool {
+	if h == nil || depth > 4 || h.Parent() != nil {
+		return false
+	}
+	n := h.Name()
+	if n == "" || (n[0] >= 'A' && n[0] <= 'Z') || h.Pkg == nil || !strings.HasPrefix(h.Pkg.Pkg.Path(), modPath) {
+		return false
+	}
+	sites := 0
+	for _, f := range p.c.Funcs {
+		if f.Synthetic != "" || p.c.IsTestFile(f.Pos()) {
+			continue
+		}
+		for _, b := range f.Blocks {
+			for _, in := range b.Instrs {
+				for _, op := range in.Operands(nil) {
+					if op == nil || *op != ssa.Value(h) {
+						continue
+					}
+					ci, isCall := in.(ssa.CallInstruction)
+					if !isCall || ci.Common().Value != ssa.Value(h) {
+						return false // used as a value
+					}
+					sites++
+					caller := rootOf(f)
+					cn := funcName(caller)
+					ok := okSet[cn]
+					for a := range okSet {
+						if strings.HasPrefix(cn, a+"$") {
+							ok = true
+						}
+					}
+					if !ok && !p.onlyReachedFrom(caller, okSet, depth+1) {
+						return false
+					}
+				}
+			}
+		}
+	}
+	return sites > 0
+}
+
 // fieldWriters: every store to struct.field in production code lies in an allowed function.
 func (p *P) fieldWriters(rule, structName, field string, allowed ...string) []FieldStore {
+	mention(allowed...)
 	okSet := map[string]bool{}
 	for _, a := range allowed {
 		okSet[a] = true
@@ -583,9 +636,9 @@ func (p *P) fieldWriters(rule, structName, field string, allowed ...string) []Fi
 	for _, f := range p.c.ProdFuncs() {
 		for _, fs := range fieldStores(f, false, structName, field) {
 			all = append(all, fs)
-			w := funcName(f)
+			w := funcName(rootOf(f))
 			c := fmt.Sprintf("store to %s.%s in %s", structName, field, w)
-			if okSet[w] {
+			if okSet[w] || p.onlyReachedFrom(rootOf(f), okSet, 0) {
 				p.r.OK(rule, c, p.c.InstrPos(fs.Store), "writer is in the allowed set")
 			} else {
 				p.r.Fail(rule, c, p.c.InstrPos(fs.Store), fmt.Sprintf("%s.%s may only be written in {%s}", structName, field, strings.Join(allowed, ", ")))
